@@ -66,7 +66,7 @@ def cases(ctx):
                 if mine():
                     yield {"kind": "request", "type": tp, "number": 1, "basis_local": bl, "basis_remote": br, "socket": 0, "remote": "bob"}
         triples = list(itertools.product(ROTS, repeat=3))
-        n_rot = ctx.n(500, 8000) * ctx.nshards
+        n_rot = ctx.n(500, 40000) * ctx.nshards
         for _ in range(n_rot):
             if mine():
                 yield {"kind": "request", "type": tp, "number": rng.choice([1, 2, 3]), "rotations_local": list(rng.choice(triples)),
@@ -77,7 +77,7 @@ def cases(ctx):
             {"rotations_local": [1, 8, 16]}, {"rotations_remote": [1, 8, 16]}, {"rotations_local": [16, 8, 1]},
             {"basis_local": "Y", "basis_remote": "Z"}, {"basis_local": "Z", "basis_remote": "Y"}, {"max_time": 5, "time_unit": "SECONDS"},
             {"max_time": 2, "time_unit": "MILLI_SECONDS"}, {}]
-    for _ in range(ctx.n(150, 6000) * ctx.nshards):
+    for _ in range(ctx.n(150, 30000) * ctx.nshards):
         if mine():
             k_req = rng.choice([2, 2, 3])
             number = rng.choice([1, 2])
@@ -87,7 +87,7 @@ def cases(ctx):
         for n1 in (1, 2):
             if mine():
                 yield {"kind": "early", "numbers": [n0, n1]}
-    for _ in range(ctx.n(60, 3000) * ctx.nshards):
+    for _ in range(ctx.n(60, 20000) * ctx.nshards):
         if mine():
             yield {"kind": "request-session", "steps": rng.choice([25, 50]), "seed": rng.randrange(2**31)}
     # ---- result side --------------------------------------------------------------------------------------
